@@ -25,6 +25,10 @@ struct Query {
 // true when the datagram is a well-formed query (strict refdns) whose name lies under `domain`
 bool decode_query(const Bytes &dgram, const std::string &domain, Query &q, std::string *why = nullptr);
 
+// for ping ('p') and data (hex digit) queries: the session named and the downstream ack carried
+struct QAck { bool is_ping = false, is_data = false; int user = -1, dn_seq = 0, dn_frag = 0, up_seq = 0, up_frag = 0, last = 0; };
+bool query_ack(const Query &q, QAck &a);
+
 struct Answer {
 	bool ok = false;       // well-formed response whose payload could be extracted
 	std::string err;       // why not
